@@ -1,6 +1,7 @@
 package main
 
 import (
+	"os"
 	"fmt"
 	"go/types"
 	"sort"
@@ -170,7 +171,13 @@ func (v *Verifier) VerifyFunc(key string, c *Contract, class map[string]string) 
 				run.Obs = nil
 				return
 			}
-			panic(r)
+			// an internal error of the engine on this function (typically code or a contract it was never
+			// exercised on): the function is NOT verified; report it instead of crashing the whole check
+			run.Err = Unsupported{fmt.Sprintf("internal engine error while generating conditions: %v", r)}
+			run.Obs = nil
+			if os.Getenv("GOVC_TRACE") != "" {
+				panic(r)
+			}
 		}
 	}()
 	env := TEnv{}
